@@ -65,13 +65,25 @@ def axis_roundtrip(cx, N, atype):
 
 @harness("C13", "freq_axis_roundtrip",
          quick=[dict(N=n, atype="complete") for n in (2, 3, 4, 5, 6)] +
-               [dict(N=n, atype="upper-half") for n in (2, 4, 6)],
+               [dict(N=n, atype="upper-half") for n in (2, 4, 6)] +
+               [dict(N=3, atype="complete", units="1/cm"), dict(N=4, atype="upper-half", units="eV")],
          thorough=[dict(N=n, atype="complete") for n in range(2, 14)] +
-                  [dict(N=n, atype="upper-half") for n in range(2, 17, 2)],
+                  [dict(N=n, atype="upper-half") for n in range(2, 17, 2)] +
+                  [dict(N=n, atype=a, units=u) for n in (3, 4) for a in ("complete", "upper-half")
+                   for u in ("1/cm", "eV", "THz") if not (a == "upper-half" and n == 3)],
          functions=[F_T + ":TimeAxis.get_FrequencyAxis", F_W + ":FrequencyAxis.get_TimeAxis"],
-         bound="frequency axis length N<=6 (thorough <=16; upper-half needs even N); start, step>0, time_start symbolic",
+         bound="frequency axis length N<=6 (thorough <=16; upper-half needs even N); start, step>0, time_start symbolic; "
+               "with units=u the axis is created and both conversions are called inside energy_units(u), values "
+               "compared inside the same context",
          out="lengths beyond the bound")
-def freq_axis_roundtrip(cx, N, atype):
+def freq_axis_roundtrip(cx, N, atype, units=None):
+    import contextlib
+    from quantarhei import FrequencyAxis, energy_units
+    with (energy_units(units) if units else contextlib.nullcontext()):
+        _freq_axis_roundtrip(cx, N, atype)
+
+
+def _freq_axis_roundtrip(cx, N, atype):
     from quantarhei import FrequencyAxis
     start = cx.real("wstart")
     step = cx.real("wstep", 0.1, 2.0)
